@@ -10,6 +10,7 @@ from ..model import codec
 from ..model.ir import psize
 
 MODES = ("ra", "cur", "tag")
+ENC_MODES = MODES + ("tagc",)      # encoders also through set_by_tag / get_by_tag *with* a plain cursor
 
 
 def cxx_ident(s):
@@ -45,6 +46,8 @@ class Emitter:
     # ---- accessor expressions
     def get_expr(self, view, name, tagpath, mode, cursor=None):
         if mode == "tag":
+            if cursor:
+                return "::sbepp::get_by_tag<%s::%s>(%s, %s)" % (tagpath, name, view, cursor)
             return "::sbepp::get_by_tag<%s::%s>(%s)" % (tagpath, name, view)
         if mode == "cur" and cursor:
             return "%s.%s(%s)" % (view, name, cursor)
@@ -181,7 +184,9 @@ class Emitter:
             else:
                 a('%s  %s.%s(x_);' % (ind, view, name))
             a('%s  k.point("%s"); }' % (ind, label))
-            if cursor:
+            if cursor and mode == "tag":
+                a('%selse { ::sbepp::get_by_tag<%s::%s>(%s, ::sbepp::cursor_ops::skip(%s)); k.point("%s(skip)"); }' % (ind, tagpath, name, view, cursor, label))
+            elif cursor:
                 a('%selse { %s.%s(::sbepp::cursor_ops::skip(%s)); k.point("%s(skip)"); }' % (ind, view, name, cursor, label))
         elif node.kind == "array":
             v = self.fresh("a")
@@ -243,7 +248,9 @@ class Emitter:
             a('%s  else if(how_ == 2) %s.assign(src_.begin(), src_.end());' % (ind, dv))
             a('%s  else { %s.clear(); for(auto x_ : src_) %s.push_back(x_); }' % (ind, dv, dv))
             a('%s  k.point("%s");' % (ind, dlabel))
-            if cursor:
+            if cursor and mode == "tag":
+                a('%s  ::sbepp::get_by_tag<%s::%s>(%s, %s);' % (ind, tagpath, d.name, view, cursor))
+            elif cursor:
                 a('%s  %s.%s(%s);' % (ind, view, d.name, cursor))
             a('%s}' % ind)
 
@@ -256,10 +263,10 @@ class Emitter:
         a('  %s m{p_, n_};' % cls)
         a('  k.expect(in); { auto h_ = ::sbepp::fill_message_header(m); if((const void*)::sbepp::addressof(h_) != (const void*)::sbepp::addressof(m)) k.note("$hdr: returned view is not the header"); } k.point("$hdr");')
         cursor = None
-        if mode == "cur":
+        if mode in ("cur", "tagc"):
             a('  auto c = ::sbepp::init_cursor(m);')
             cursor = "c"
-        self.enc_level(out, rmsg.level, "m", self.n.msg_tag(rmsg), mode, cursor, rmsg.name, "  ")
+        self.enc_level(out, rmsg.level, "m", self.n.msg_tag(rmsg), "tag" if mode == "tagc" else mode, cursor, rmsg.name, "  ")
         a('}')
         return "\n".join(out)
 
